@@ -156,9 +156,9 @@ pub fn prop() -> Prop {
             "metamorphic oracle (library against itself); when two spellings differ, each side is compared with the reference evaluator so that only open findings (K1 order, K3/K4 escapes) can explain the difference",
         ],
         subs: vec![
-            Sub { name: "random-spellings", kind: Kind::Random { f: random_spellings, quick: 12_000, thorough: 640_000, len: 700 } },
-            Sub { name: "random-spellings-escapes", kind: Kind::Random { f: random_spellings_escapes, quick: 6_000, thorough: 300_000, len: 700 } },
-            Sub { name: "random-numbers", kind: Kind::Random { f: random_numbers, quick: 6_000, thorough: 200_000, len: 200 } },
+            Sub { name: "random-spellings", kind: Kind::Random { f: random_spellings, quick: 60_000, thorough: 1_200_000, len: 700 } },
+            Sub { name: "random-spellings-escapes", kind: Kind::Random { f: random_spellings_escapes, quick: 30_000, thorough: 600_000, len: 700 } },
+            Sub { name: "random-numbers", kind: Kind::Random { f: random_numbers, quick: 30_000, thorough: 600_000, len: 200 } },
         ],
         direct: Some(direct),
         selftest: Some(crate::rfc::selftest),
